@@ -197,8 +197,7 @@ package terminal
 //@   ensures err != nil ==> !typeis[parsley.Error](err)
 //@   assigns nothing
 //@ assume func strconv.UnquoteChar(s string, quote byte) (value rune, multibyte bool, tail string, err error)
-//@   requires len(s) >= 1
-//@   ensures err == nil ==> len(tail) < len(s) && value == charOf(s) && 0 <= value && value <= 0x10FFFF
+//@   ensures err == nil ==> len(s) >= 1 && len(tail) < len(s) && value == charOf(s) && 0 <= value && value <= 0x10FFFF
 //@   ensures [expand] err == nil && (s[0] < 0x80 || validRuneStart(s)) ==> len(string(value)) <= len(s) - len(tail)
 //@   assigns nothing
 //@ -- s starts with a well-formed UTF-8 sequence
@@ -231,4 +230,45 @@ package terminal
 //@   ensures  [node] n != nil ==> n.Pos() == pos && n.ReaderPos() >= pos
 //@   ensures  [value] n != nil ==> typeis[*TimeDurationNode](n) && n.(*TimeDurationNode).value == durationOf(strof(text.DataOf(ctx.Reader().(*text.Reader))[text.CurOf(ctx.Reader().(*text.Reader), pos):text.CurOf(ctx.Reader().(*text.Reader), n.ReaderPos())]))
 //@   ensures  [fail] err != nil ==> err.Pos() == pos
+//@   ghost_return when err != nil && err.Pos() > parsley.GhostMaxFail :: parsley.GhostMaxFail = err.Pos()
+
+//@ closure Char$1(ctx *parsley.Context, lrc data.IntMap, pos parsley.Pos) (n parsley.Node, cp data.IntSet, err parsley.Error)
+//@   captures (notFoundErr parsley.NotFoundError, schema interface{})
+//@   include  parsley.Parser.Parse
+//@   ensures  [total] (n == nil) != (err == nil) && len(data.ElemsOf(cp)) == 0
+//@   ensures  [node] n != nil ==> n.Pos() == pos && n.ReaderPos() >= pos + 2
+//@   ensures  [fail] err != nil ==> err.Pos() >= pos
+//@   ghost_return when err != nil && err.Pos() > parsley.GhostMaxFail :: parsley.GhostMaxFail = err.Pos()
+
+//@ closure Regexp$1(ctx *parsley.Context, lrc data.IntMap, pos parsley.Pos) (n parsley.Node, cp data.IntSet, err parsley.Error)
+//@   captures (groupIndex int, regexp string, schema interface{}, token string, notFoundErr parsley.NotFoundError)
+//@   requires text.ValidPattern(regexp) && 0 <= groupIndex && groupIndex <= text.GroupsOf("^(?:" + regexp + ")")
+//@   include  parsley.Parser.Parse
+//@   ensures  [total] (n == nil) != (err == nil) && len(data.ElemsOf(cp)) == 0
+//@   ensures  [node] n != nil ==> n.Pos() == pos && n.ReaderPos() >= pos
+//@   ensures  [fail] err != nil ==> err.Pos() == pos
+//@   ghost_return when err != nil && err.Pos() > parsley.GhostMaxFail :: parsley.GhostMaxFail = err.Pos()
+
+//@ assume func unicode/utf8.DecodeRuneInString(s string) (r rune, size int)
+//@   ensures len(s) >= 1 ==> validRuneStart(s) == !(r == 0xFFFD && size == 1)
+//@   ensures 0 <= size && size <= len(s)
+//@   assigns nothing
+
+//@ -- the custom reader handed to Reader.Readf: returns the unquoted bytes and how many input bytes they stand for
+//@ func unquoteString(b []byte) (v []byte, n int)
+//@   requires len(b) >= 1
+//@   ensures  [zero] n == 0 ==> v == nil
+//@   ensures  [bounds] 0 <= n && len(v) <= n && n <= len(b)
+//@   assigns  nothing
+//@ loop 1 (i int)
+//@   invariant 0 <= i && i <= len(b)
+//@ loop 2 (str string, res []byte, i int)
+//@   invariant 0 <= i && i <= len(b) && len(str) <= len(b) - i && len(res) <= len(b) - len(str)
+
+//@ closure String$1(ctx *parsley.Context, lrc data.IntMap, pos parsley.Pos) (n parsley.Node, cp data.IntSet, err parsley.Error)
+//@   captures (allowBackquote bool, notFoundErr parsley.NotFoundError, schema interface{})
+//@   include  parsley.Parser.Parse
+//@   ensures  [total] (n == nil) != (err == nil) && len(data.ElemsOf(cp)) == 0
+//@   ensures  [node] n != nil ==> n.Pos() == pos && n.ReaderPos() >= pos + 2
+//@   ensures  [fail] err != nil ==> err.Pos() >= pos
 //@   ghost_return when err != nil && err.Pos() > parsley.GhostMaxFail :: parsley.GhostMaxFail = err.Pos()
